@@ -60,7 +60,15 @@ def clamp_rule(repo: Repo, rep: Report, rid: str) -> None:
         defs = rd.reaching(n.id, cnt.id)
         if not defs:
             rep.fail(rid, f"{fi.key}:{short(c, 60)}", f"'{cnt.id}' has no definition reaching the call", fi.loc(c))
-        for nid, val in defs:
+        def leaves(nid_: int, v_: ast.AST | None, depth: int = 3) -> list[tuple[int, ast.AST | None]]:
+            """Definitions behind copies of locals (e.g. the result variable of an inlined helper)."""
+            if depth and isinstance(v_, ast.Name) and v_.id != "EOF":
+                ds = rd.reaching(nid_, v_.id)
+                if ds:
+                    return [x for n2, v2 in ds for x in leaves(n2, v2, depth - 1)]
+            return [(nid_, v_)]
+
+        for nid, val in [x for d_ in defs for x in leaves(*d_)]:
             k += 1
             key = f"{fi.key}:{cnt.id} = {short(val, 50)}"
             ok = _clamped_or_eof(repo, fi, val)
@@ -297,8 +305,9 @@ def run(repo: Repo, rep: Report, tier: str) -> None:
     parse_time_count_rule(repo, rep, "C07.R11")
     array_count_fold_rule(repo, rep, "C07.R12")
     count_text_rule(repo, rep, "C07.R13")
+    from .memo import memo_rule
 
+    memo_rule(repo, rep, "C07.R16")
+    from .c17 import one_list_rule
 
-
-
-
+    one_list_rule(repo, rep, "C07.R17")
